@@ -96,3 +96,158 @@ def mono_of(s):
         else:
             m.append((f, 1))
     return [(Fraction(1), tuple(m))]
+
+
+# ---- continuous draws replaced by finitely supported laws with the same moments ------------------------------
+
+class NotAffine(ValueError):
+    pass
+
+
+def _scale_for(c, lo, hi):
+    """power of two r with c / r**2 in [lo, hi]"""
+    r = Fraction(1)
+    while c / (r * r) > hi:
+        r *= 2
+    while c / (r * r) < lo:
+        r /= 2
+    return r
+
+
+def surrogate(kind, scale_param, order=5):
+    """standardised finite law (list of (value, probability)) whose moments of order 0..order (3 or 5) equal those of
+    normal: N(0, c) with c = scale_param;  uniform: U(0, 1);  laplace: Laplace(0, b) with b = scale_param.
+    Nodes are rational; the weights solve the moment equations (odd moments vanish by symmetry)."""
+    if order <= 3:
+        if kind == "uniform":
+            return [(Fraction(0), Fraction(1, 6)), (Fraction(1, 2), Fraction(2, 3)), (Fraction(1), Fraction(1, 6))]   # Simpson
+        m2 = Fraction(scale_param) if kind == "normal" else 2 * Fraction(scale_param) ** 2
+        a = _scale_for(m2, Fraction(1, 4), Fraction(1))       # m2 / a^2 in [1/4, 1]
+        w = m2 / (2 * a * a)
+        return [(x, p) for x, p in ((-a, w), (Fraction(0), 1 - 2 * w), (a, w)) if p > 0]
+    if kind == "uniform":
+        # Boole's rule: exact for polynomials of degree <= 5
+        return [(Fraction(i, 4), Fraction(w, 90)) for i, w in enumerate((7, 32, 12, 32, 7))]
+    if kind == "normal":
+        c = Fraction(scale_param)
+        r = _scale_for(c, Fraction(1, 3), Fraction(4, 3))
+        t = c / (r * r)                                  # nodes 0, +-r, +-2r: m2 = c, m4 = 3 c^2
+        w2 = (3 * t * t - t) / 24
+        w1 = (4 * t - 3 * t * t) / 6
+        nodes = [(-2 * r, w2), (-r, w1), (Fraction(0), 1 - 2 * (w1 + w2)), (r, w1), (2 * r, w2)]
+    elif kind == "laplace":
+        b = Fraction(scale_param)
+        r = _scale_for(b * b, Fraction(1, 4), Fraction(1))
+        t = b * b / (r * r)                              # nodes 0, +-r, +-4r: m2 = 2 b^2, m4 = 24 b^4
+        w2 = (12 * t * t - t) / 240
+        w1 = (16 * t - 12 * t * t) / 15
+        nodes = [(-4 * r, w2), (-r, w1), (Fraction(0), 1 - 2 * (w1 + w2)), (r, w1), (4 * r, w2)]
+    else:
+        raise ValueError(kind)
+    assert all(w >= 0 for _, w in nodes) and sum(w for _, w in nodes) == 1, (kind, scale_param, nodes)
+    return [(x, w) for x, w in nodes if w > 0]
+
+
+def _pmul(p, q):
+    out = {}
+    for c1, m1 in p:
+        for c2, m2 in q:
+            d = dict(m1)
+            for v, e in m2:
+                d[v] = d.get(v, 0) + e
+            key = tuple(sorted(d.items()))
+            out[key] = out.get(key, 0) + c1 * c2
+    return [(c, m) for m, c in out.items() if c != 0]
+
+
+def prog_cont(P, order=5):
+    """exported program with normal / uniform / laplace draws -> abstract program in which every such draw is
+    v = location + scale * c  for a fresh finitely supported c (see surrogate).  Sound for expectations of monomials
+    of total degree <= 5 provided every variable is affine in the continuous draws and no condition reads them;
+    raises NotAffine otherwise."""
+    counter = [0]
+    aux = []
+
+    def conv(ss):
+        out = []
+        for s in ss:
+            if s[0] == "draw" and s[2][0] in ("normal", "uniform", "laplace"):
+                counter[0] += 1
+                c = f"_c{counter[0]}"
+                aux.append(c)
+                d = s[2]
+                if d[0] == "normal":
+                    law, loc, sc = surrogate("normal", sc_(d[2]), order), poly(d[1]), [(Fraction(1), ())]
+                elif d[0] == "laplace":
+                    law, loc, sc = surrogate("laplace", sc_(d[2]), order), poly(d[1]), [(Fraction(1), ())]
+                else:
+                    a, b = poly(d[1]), poly(d[2])
+                    law, loc, sc = surrogate("uniform", None, order), a, b + [(-c0, m) for c0, m in a]
+                out.append(("draw", c, ("finite", law), ("true",), c))
+                out.append(("assign", s[1], [(Fraction(1), loc + _pmul(sc, [(Fraction(1), ((c, 1),))]))], cond(s[3]), s[4]))
+            elif s[0] == "if":
+                out.append(("if", [cond(c) for c in s[1]], [conv(b) for b in s[2]], conv(s[3])))
+            else:
+                out += stmts([s])
+        return out
+
+    def sc_(x):
+        return Fraction(x) if not isinstance(x, list) else Fraction(x[0])
+    Q = {"vars": list(P["vars"]), "s0": {k: sc(v) for k, v in P["s0"].items()},
+         "init": conv(P["init"]), "guard": cond(P["guard"]), "body": conv(P["body"])}
+    Q["vars"] += aux
+    _check_affine(Q, set(aux))
+    Q["order"] = 5 if order > 3 else 3
+    return Q
+
+
+def _check_affine(Q, aux):
+    tainted = set(aux)
+
+    def cvars(c):
+        if c[0] == "atom":
+            return {v for _, m in c[1] for v, _ in m} | {v for _, m in c[3] for v, _ in m}
+        if c[0] in ("and", "or"):
+            return cvars(c[1]) | cvars(c[2])
+        if c[0] == "not":
+            return cvars(c[1])
+        return set()
+
+    def walk(ss):
+        changed = False
+        for s in ss:
+            if s[0] == "assign":
+                for _p, e in s[2]:
+                    for _c, m in e:
+                        if sum(k for v, k in m if v in tainted) > 1:
+                            raise NotAffine(f"{s[1]} is not affine in the continuous draws")
+                        if any(v in tainted for v, _k in m) and s[1] not in tainted:
+                            tainted.add(s[1])
+                            changed = True
+                if (s[4] in tainted) and s[1] not in tainted:
+                    tainted.add(s[1])
+                    changed = True
+                if cvars(s[3]) & tainted:
+                    raise NotAffine("a condition reads a continuous variable")
+            elif s[0] == "draw":
+                if cvars(s[3]) & tainted:
+                    raise NotAffine("a condition reads a continuous variable")
+            elif s[0] == "if":
+                for c in s[1]:
+                    if cvars(c) & tainted:
+                        raise NotAffine("a condition reads a continuous variable")
+                for b in list(s[2]) + [s[3]]:
+                    changed |= walk(b)
+            elif s[0] == "func":
+                raise NotAffine("functional assignment")
+            elif s[0] == "simul":
+                raise NotAffine("simultaneous assignment")
+        return changed
+    for _ in range(len(Q["vars"]) + 2):
+        a = walk(Q["init"])
+        b = walk(Q["body"])
+        if not (a or b):
+            break
+    if cvars(Q["guard"]) & tainted:
+        raise NotAffine("the guard reads a continuous variable")
+    Q["tainted"] = sorted(tainted)
